@@ -15,7 +15,9 @@ RULE = (
     "range(n) semantics with the two stated deviations (IndexError for a bound < -n, positive overflow clamps); "
     "handle sub-check: handles returned by Hugr.add_node(num_outs=k) and by generated builder programs must "
     "iterate exactly the op's value outputs (count from the reference signature); ports hash/compare by "
-    "(node idx, offset). Non-trivial = n>=1 with a negative or out-of-range operand, or a builder handle with "
+    "(node idx, offset); rejected-call sub-check: generated builder program with one injected invalid call (the "
+    "C13 catalogue, output-establishing calls first): every container handle that agreed with its op's output count "
+    "before the rejected call still agrees with it afterwards. Non-trivial = n>=1 with a negative or out-of-range operand, or a builder handle with "
     ">=2 outputs; distinct by canonical JSON."
 )
 ASSUMPTIONS = ["slices with non-positive step are outside the statement and not generated (step None/0 means 1 is not asserted for 0)"]
@@ -290,4 +292,92 @@ SUBS.append(
     Sub("builder-handles", check_program_handles, strategy=_prog_strategy, nontrivial=lambda c: "multi-output-op" in c.get("classes", []) or len(c["events"]) >= 6,
         classes=lambda c: [x for x in c.get("classes", []) if x in ("multi-output-op", "insert", "call", "load-const", "nested-dfg", "cfg", "conditional", "tail-loop")], n_quick=250, n_thorough=1500,
         sample_ok=lambda c: len(c["events"]) <= 10)
+)
+
+
+# ---- handles after a rejected builder call
+
+
+def _counts(res):
+    """key -> (what the handle enumerates, the op's number of value outputs) for every handle / container
+    builder created so far; either side None when undetermined."""
+    out = {}
+
+    def one(key, handle, hugr):
+        try:
+            nd = handle.to_node() if hasattr(handle, "to_node") else handle
+            op = hugr[nd].op
+        except Exception:  # noqa: BLE001
+            return
+        try:
+            n_op = len(op.outer_signature().output)
+        except Exception:  # noqa: BLE001
+            n_op = None
+        try:
+            got = [(p.node.idx, p.offset) for p in handle]
+            n_h = len(got) if got == [(nd.idx, i) for i in range(len(got))] else "wrong-ports"
+        except ValueError:
+            n_h = None
+        except Exception as e:  # noqa: BLE001
+            n_h = "raises-" + type(e).__name__
+        out[key] = (n_h, n_op, type(op).__name__)
+
+    for rid, b in list(res.builders.items()):
+        if hasattr(b, "parent_node") and getattr(b, "hugr", None) is not None:
+            one(("builder", rid), b.parent_node, b.hugr)
+    return out
+
+
+def check_rejected(case) -> list[Fail]:
+    from vlib.props import c13
+
+    kind = c13.effective_kind(case)
+    if kind in (None, "untracked-index"):
+        raise InvalidCase("no injection applicable")
+    inj = c13.inject(case["prog"], kind, case["sel"])
+    if inj is None:
+        raise InvalidCase("injection not applicable")
+    p2, pos = inj
+    seen = {}
+
+    def watch(idx, ev, res):
+        seen["res"] = res
+        seen["before"] = _counts(res)
+
+    try:
+        exc, at = c13.run_injected(p2, watch)
+    except (c13._Accepted, c13._AcceptedSilently):
+        raise InvalidCase("injection accepted (C13's business)") from None
+    if exc is None or "res" not in seen or at == "to_json":
+        raise InvalidCase("nothing was rejected by a builder call")
+    after = _counts(seen["res"])
+    f = []
+    for key, (h_b, op_b, cls) in seen["before"].items():
+        if key not in after:
+            continue
+        h_a, op_a, _ = after[key]
+        # a handle that agreed with its op before the rejected call must still agree with it afterwards
+        if op_b is not None and h_b == op_b and op_a is not None and h_a != op_a:
+            f.append(Fail("rejected-call", f"{kind}:{cls}-handle-out-of-sync", f"{key}: handle {h_b}->{h_a}, op outputs {op_b}->{op_a} after {type(exc).__name__}"))
+    return f[:4]
+
+
+def _rejected_strategy(tier):
+    from vlib import proggen
+    from vlib.props import c13
+
+    # the calls that establish or compare a container's outputs first; the others as fall-back
+    kinds = ["case-outputs-disagree", "exit-row-mismatch", "function-outputs-differ", "case-built-twice", "case-index-out-of-range", "cond-exit-unbuilt", "unrelated-wire", "non-dataflow-wire", "int-wire-in-dfg"]
+    return st.fixed_dictionaries({"prog": proggen.programs(size=14 if tier == "quick" else 22, max_depth=2), "kind": st.sampled_from(kinds[:4]), "kinds": st.just(kinds), "sel": st.integers(0, 50)})
+
+
+def _rejected_nt(case):
+    from vlib.props import c13
+
+    return c13.effective_kind(case) in ("case-outputs-disagree", "exit-row-mismatch", "function-outputs-differ", "case-built-twice")
+
+
+SUBS.append(
+    Sub("handles-after-rejected-call", check_rejected, strategy=_rejected_strategy, nontrivial=_rejected_nt,
+        classes=lambda c: [str(__import__("vlib.props.c13", fromlist=["x"]).effective_kind(c))], n_quick=300, n_thorough=2000, sample_ok=lambda c: len(c["prog"]["events"]) <= 10)
 )
